@@ -207,10 +207,9 @@ def targeted(b, marks, rng):
         f = rest.split(":")
         off = int(f[0])
         if kind in ("len", "cnt"):
-            if f[1] != "-":
+            if f[1] != "-" and int(f[1]) + 1 < (1 << 32):
                 out.append((put(off, int(f[1]) + 1), "err InvalidLength", kind + ">max"))
-                out.append((put(off, (1 << 32) - 1), "err InvalidLength", kind + ">max"))
-            for v in [1 << 16, (1 << 31) - 1, 1 << 31] + ([(1 << 32) - 1] if f[1] == "-" else []):
+            for v in [1 << 16, (1 << 31) - 1, 1 << 31, (1 << 32) - 1]:
                 if f[1] != "-" and v > int(f[1]):
                     out.append((put(off, v), "err InvalidLength", kind + ">max"))
                 else:
@@ -239,8 +238,8 @@ def targeted(b, marks, rng):
         elif kind == "str":
             n = int(f[1])
             if n >= 1:
-                j = off + rng.below(n)
-                out.append((b[:j] + b"\xff" + b[j + 1:], "err NonUtf8String", "utf8"))
+                for j in sorted({off, off + n - 1, off + rng.below(n)}):
+                    out.append((b[:j] + b"\xff" + b[j + 1:], "err NonUtf8String", "utf8"))
     return out
 
 
